@@ -69,6 +69,8 @@ type WeatherDay struct {
 	Tavg, Tmin, Tmax, Precip, Glob, Wind, RH, Sun, Verd, ET0 float64
 	// which optional values are written as the "none" sentinel
 	NoneTavg, NoneSun, NoneVerd bool
+	// the (required) radiation / precipitation value is written as the sentinel: the model then takes 0 (C13 pairs only)
+	NoneGlob, NonePrecip bool
 }
 
 type WeatherSpec struct {
